@@ -285,8 +285,10 @@ CHECKS = {
             "from_dict(to_dict(x)) = x; elided fields are refilled by exactly their defaults), C19_elide / C19_stored (a numeric "
             "field is omitted iff it equals its declared default - under its python name, also when renamed; null references are "
             "omitted), C19_full (the dictionary stored for a non-null reference rebuilds the referent), C19_json (T(x._to_json()) "
-            "= x for reference-free structs and one-dimensional arrays, nested arbitrarily).",
-            "Array-valued hybrid fields are covered by the oracle only.",
+            "= x for reference-free structs and one-dimensional arrays, nested arbitrarily). Numeric leaves are LISTS of numbers: a "
+            "scalar, an array of static shape (default: zeros) or an array of dynamic shape, which has NO default and is always "
+            "stored - also when empty (C19_no_default_stored; the case the library got wrong, O-33, repaired).",
+            "Floating-point values are modelled as the integers the generator draws.",
             "7/C19"),
     "C20": ("Lean 4 proof over a model of pickling as a memoised graph copy parameterised by the classes' __getstate__/__setstate__: "
             "sharing iff shared (injectivity of the memo index), fresh buffers, identical bytes and allocator state; the real "
